@@ -7,6 +7,11 @@ BASELINE = ("cd /repo && (cargo nextest run --workspace --no-fail-fast --tool-co
 
 # id -> (level, technique, level text, note, design ref)
 CHECKS = {
+ "C03": ("exploration",
+         "metamorphic + reference-model property-based testing: value(doc with merges) == value(harness-merged document) and == the harness' expected ordered value; exhaustive small shapes + proptest nested merges",
+         "All merge shapes with <= 2 own keys, <= 2 merge entries at every interleaving, <= 2 sources per entry (inline, alias, sequence) over 3 key names, under all three duplicate-key policies; random merges nested to depth 3 with null values, nested sequences and aliases; invalid merge values must be rejected; quoted/tagged << must stay an ordinary key. Delivery order is observed through an order-preserving target. Exploration: no counterexample in the enumerated and sampled space.",
+         "trusts the harness' resolve_merges (a direct transcription of the property's sentence) and renderer (self-checked against the raw parser); own keys never repeat (C04's domain)",
+         "DESIGN.md section 3 C03"),
  "C02": ("exploration",
          "metamorphic property-based testing: value(doc) == value(harness-computed alias-free expansion); exhaustive small trees x anchor/alias placements + proptest-generated decorated trees",
          "Every tree with <= 5 (thorough 6) nodes x every placement of <= 2 anchors and <= 3 aliases in block and flow layout, plus random decorated trees, merge values through aliases and multi-document streams, for untyped, serde_json and shape-following typed targets; each document is compared with its alias-free, anchor-free expansion computed on the AST; unbound aliases must be rejected. Exploration: no counterexample in the enumerated space and the random sample.",
